@@ -115,9 +115,11 @@ func VerifHarness_C04_header_authenticated() {
 // advances it by exactly one, carries included (the value is MAC input / additional data / explicit nonce, so
 // an independent implementation must be able to predict it for every record of a long connection, not only
 // the first 255). One-step lemma on the real incSeq with a symbolic pre-state; the wrap itself must panic
-// rather than reuse a nonce.
+// rather than reuse a nonce. The same lemma is C05's "no record is replayed" at the counter: a sequence number
+// that repeats within a connection (a dropped carry) makes an old record authentic again at a later position,
+// so the obligation is asserted under C05 as well (seeded change C05-g1).
 //
-//verif:harness props=C04 paths=200 reach=done,wrap
+//verif:harness props=C04,C05 paths=200 reach=done,wrap
 func VerifHarness_C04_sequence_increment() {
 	var hc halfConn
 	s := verifNondetU64("seq")
@@ -136,6 +138,7 @@ func VerifHarness_C04_sequence_increment() {
 		}()
 		verifReach("wrap")
 		verifAssert("C04.seq.wrapIsRefused", wrapped)
+		verifAssert("C05.seq.wrapIsRefused", wrapped)
 		return
 	}
 	hc.incSeq()
@@ -144,5 +147,6 @@ func VerifHarness_C04_sequence_increment() {
 		got = got<<8 | uint64(hc.seq[i])
 	}
 	verifAssert("C04.seq.incrementIsPlusOneBigEndian", got == s+1)
+	verifAssert("C05.seq.neverRepeatsWithinAConnection", got == s+1)
 	verifReach("done")
 }
